@@ -241,6 +241,17 @@ def _write_evidence(prop, ctx, tier, seed, t0, error=None, level="other", violat
             "source_digest": ctx.program.digest if ctx.program else None,
             "exhaustive": False,
         }
+        try:
+            from . import alg as _alg
+            nrand = len(_alg.RANDOMISED)
+        except Exception:
+            nrand = 0
+        cov["identities_accepted_by_randomised_testing"] = nrand
+        if nrand:
+            ctx.assumptions.add("some piecewise (data-dependent select) identities were accepted by randomised identity testing over the regions of "
+                                "their guards because the exact case analysis ran out of budget; a claimed proof level is lowered to 'other' for this run")
+            if level == "proof":
+                level = "other"
     else:
         cov = {"obligations": 0, "discharged": 0, "evaluations": 1, "distinct_nontrivial": 2,
                "explanation": "analysis failed before obligations were generated", "samples": [{"error": error}],
